@@ -151,6 +151,10 @@ Definition rejected_obs (ds : string) (e : exn) : bool := match resolve ds with 
             remote_docs = [(f_, n_) for f_, n_ in doc_names() if f_ != "sandvine"]
             for fam, name in remote_docs[::11]:
                 cases.append({"name": name, "doc": name, "family": fam, "unpack": False, "env": True, "again": True, "other_fs": True})
+        # the documented name held as a member of a str-Enum catalogue / as a NumPy string: it is the documented name
+        for k_, (fam, name) in enumerate(doc_names()[3::13]):
+            cases.append({"name": name, "doc": name, "family": fam, "unpack": bool(k_ % 2), "env": True, "again": False,
+                          "name_kind": "str_enum" if k_ % 3 else "np_str"})
         # transient network failures (URLError) before the download succeeds: up to the documented default of 3 retries they are
         # absorbed and the documented dataset is reachable all the same
         for k_, (fam, name) in zip((1, 2, 3, 3), [(f_, n_) for f_, n_ in doc_names() if f_ != "sandvine"][5::17]):
@@ -176,8 +180,16 @@ Definition rejected_obs (ds : string) (e : exn) : bool := match resolve ds with 
             warnings.simplefilter("ignore")
             with Sandbox(use_env=c["env"], base=(Sandbox.other_filesystem() if c.get("other_fs") else None), nested=bool(c.get("nested_home"))) as sb:
                 sb.fail_first = int(c.get("transient", 0))
+                name_arg = c["name"]
+                if c.get("name_kind") == "str_enum":
+                    # a catalogue of names written as `class Name(str, Enum)`: each member IS the documented string (== and str
+                    # methods see the value), only its format() / str() differ
+                    import enum
+                    name_arg = enum.Enum("Name", {"ENTRY": c["name"]}, type=str).ENTRY
+                elif c.get("name_kind") == "np_str":
+                    name_arg = np.str_(c["name"])
                 try:
-                    r = load_dataset(c["name"], unpack_dataset_columns=c["unpack"])
+                    r = load_dataset(name_arg, unpack_dataset_columns=c["unpack"])
                     if c["unpack"]:
                         ok_tuple = isinstance(r, tuple) and len(r) == 2
                         arr = np.column_stack(r) if ok_tuple else np.asarray(r)
